@@ -33,6 +33,7 @@ type switchboard struct {
 
 	conns      sync.Map
 	connsCount uint32
+	addConnM   sync.Mutex
 	randPool   sync.Pool
 
 	broken uint32
@@ -55,9 +56,13 @@ func makeSwitchboard(sesh *Session) *switchboard {
 var errBrokenSwitchboard = errors.New("the switchboard is broken")
 
 func (sb *switchboard) addConn(conn net.Conn) {
-	connId := atomic.AddUint32(&sb.connsCount, 1) - 1
-	verifhook.At("sb.addConn.counted", uint64(connId))
+	// the entry must exist before its id can be drawn by pickRandConn, so the count is published last
+	sb.addConnM.Lock()
+	connId := atomic.LoadUint32(&sb.connsCount)
 	sb.conns.Store(connId, conn)
+	verifhook.At("sb.addConn.counted", uint64(connId))
+	atomic.AddUint32(&sb.connsCount, 1)
+	sb.addConnM.Unlock()
 	go sb.deplex(conn)
 }
 
